@@ -1,10 +1,12 @@
 mod c20;
 mod c20_net2;
+mod c25;
 
 fn main() {
     let ctx = mc_core::Ctx::from_args();
     match ctx.prop.as_str() {
         "C20" => c20::run(ctx),
+        "C25" => c25::run(ctx),
         p => mc_core::report::machinery_failure(&format!("mc-net1 does not serve {p} yet")),
     }
 }
